@@ -9,7 +9,7 @@
     Exponential      own formula: factorial(k) / lamb^k                                  → mirrored
     Categorical      own loop:    m += i^k · p_i over enumerate(probabilities)           → mirrored
     DiscreteUniform  own loop:    m += v^k · 1/len(values) over range(lo, hi+1)          → mirrored
-    TruncNormal      own recursion over φ/Φ (irrational), then rounded through `float`   → mirrored with
+    TruncNormal      own recursion over φ/Φ (irrational), then `evalf(50)` as a rational → mirrored with
                      φ(α), φ(β), Φ(β)−Φ(α) as opaque rational inputs (`truncNormalRec`), rounding not modelled
     Normal, Laplace, Gamma, Beta   delegate to `sympy.stats.E(x**k)`                      → nothing to mirror
                      (Beta multiplies the sympy value by scale^k: `betaScaledMoment`)
